@@ -21,20 +21,9 @@
   whose FUNC records do not overlap the two readings coincide (`eq_linear_scan`).
 -/
 import MdProofs.Lemmas.Symbolize
+import MdProofs.Lemmas.SymbolizeScan
 namespace MdModel.Symbolize
 open MdModel MdModel.RangeMap
-
-/-- the FUNC record's own range `[addr, addr+size)` is valid and contains the relative address -/
-def Func.Covers (f : Func) (a : Nat) : Prop :=
-  0 < f.size ∧ f.addr + f.size ≤ U64MAX ∧ f.addr ≤ a ∧ a < f.addr + f.size
-
-/-- the line record's own range `[addr, addr+size-1]` is valid and contains the relative address -/
-def Line.Covers (l : Line) (a : Nat) : Prop :=
-  0 < l.size ∧ l.addr + (l.size - 1) ≤ U64MAX ∧ l.addr ≤ a ∧ a ≤ l.addr + (l.size - 1)
-
-/-- the inlinee's own range `[addr, addr+size)` is valid and contains the relative address -/
-def Inl.Covers (x : Inl) (a : Nat) : Prop :=
-  x.addr + x.size ≤ U64MAX ∧ x.addr ≤ a ∧ a < x.addr + x.size
 
 /-! ## 1. the reported FUNC is a record of the file whose range contains the address -/
 
@@ -502,5 +491,142 @@ theorem frames_innermost_first (sf : SymFile) (base msize instr : Nat) (fr' : Fr
       apply hc
       simp only [Rng.contains, Bool.and_eq_true, decide_eq_true_eq]
       omega
+
+/-! ## 5. files whose records do not overlap: the result equals an independent linear scan -/
+
+/-- the frame without the parameter size (which the property text does not speak about; the
+    `symb` engine's linear-scan oracle compares it too, on STACK WIN records that do not overlap) -/
+def Frame.noPsize (fr : Frame) : Frame := { fr with fn := fr.fn.map fun (n, b, _) => (n, b, 0) }
+
+/-- **C11.7 `eq_linear_scan`** — "For files whose records do not overlap, the result equals an
+    independent linear-scan lookup over the file's records." `scanFill`
+    (MdProofs/Lemmas/SymbolizeScan.lean) looks the instruction up with `find?`/`foldl`/`any` over
+    the records in file order — no range table, no sorting, no binary search: first FUNC record
+    containing the address, first depth-0, depth-1, … INLINE range containing it, first line
+    record containing it, else the greatest PUBLIC at or below the address unless a valid FUNC
+    record starts between it and the address. For every file satisfying `NonOverlapping` (valid
+    FUNC ranges, line ranges within a FUNC, same-depth INLINE ranges within a FUNC: pairwise
+    disjoint), every base and every instruction, `fill_symbol`'s function name and base, source
+    file/line/base and inline frames are exactly those of the scan. -/
+theorem eq_linear_scan {r : Recs} {sf : SymFile} (hb : build r = .ok sf) (hno : NonOverlapping r)
+    {base instr : Nat} {fr : Frame} (h : fillSymbol sf base instr = .ok fr) :
+    fr.noPsize = (scanFill r base instr).noPsize := by
+  have B := build_built hb
+  by_cases hlt : instr < base
+  · rw [fillSymbol_below hlt] at h; cases h
+    unfold scanFill; rw [if_pos hlt]
+  · have hge : base ≤ instr := by omega
+    have hfa : funcAt sf.funcs sf.ftab (instr - base) = (scanFunc r (instr - base)).map finOf := by
+      rw [B.ftab, B.funcs]; exact funcAt_scan hno _
+    unfold scanFill
+    rw [if_neg hlt]
+    simp only
+    cases hs : scanFunc r (instr - base) with
+    | some f =>
+      rw [hs] at hfa
+      simp only [Option.map_some] at hfa
+      have hfm : f ∈ r.funcs := by unfold scanFunc at hs; exact List.mem_of_find?_eq_some hs
+      have hl := hno.lines f hfm
+      have hi := hno.inls f hfm
+      obtain ⟨_, hc⟩ := fillSymbol_func hge hfa h
+      simp only
+      cases hc with
+      | inlined x fr0 inl h0 hss hloop hfr =>
+        rw [inlineeAt_scan hi] at h0
+        simp only [Outcome.ok.injEq] at h0
+        rw [h0]
+        simp only
+        have hinl := inlineLoop_scan B hl hi _ _ _ _ _ hloop
+        have hlen : (finOf f).inls.length = f.inls.length := List.length_mergeSort _
+        rw [hlen] at hinl
+        subst hfr
+        rcases setSource_ok hss with ⟨hnone, rfl⟩ | ⟨file, hfile, _, rfl⟩
+        · rw [B.files] at hnone
+          simp [Frame.noPsize, scanSrc, hnone, hinl]
+          exact ⟨rfl, rfl⟩
+        · rw [B.files] at hfile
+          simp [Frame.noPsize, scanSrc, hfile, hinl]
+          exact ⟨rfl, rfl⟩
+      | line l h0 hline hss =>
+        rw [inlineeAt_scan hi] at h0
+        simp only [Outcome.ok.injEq] at h0
+        rw [h0]
+        simp only
+        rw [lineAt_scan hl] at hline
+        rw [hline]
+        simp only
+        rcases setSource_ok hss with ⟨hnone, rfl⟩ | ⟨file, hfile, _, rfl⟩
+        · rw [B.files] at hnone
+          simp [Frame.noPsize, scanSrc, hnone]
+          exact ⟨rfl, rfl⟩
+        · rw [B.files] at hfile
+          simp [Frame.noPsize, scanSrc, hfile]
+          exact ⟨rfl, rfl⟩
+      | bare h0 hline hfr =>
+        rw [inlineeAt_scan hi] at h0
+        simp only [Outcome.ok.injEq] at h0
+        rw [h0]
+        simp only
+        rw [lineAt_scan hl] at hline
+        rw [hline]
+        subst hfr
+        simp [Frame.noPsize]
+        exact ⟨rfl, rfl⟩
+    | none =>
+      rw [hs] at hfa
+      simp only [Option.map_none] at hfa
+      simp only
+      obtain ⟨sp1, sp2⟩ := scanPublic_spec r.pubs (instr - base)
+      rcases public_rule hb hge h hfa with ⟨p, hnp, hrule, rfl⟩ | ⟨rfl, hwhy⟩
+      · cases hsp : scanPublic r.pubs (instr - base) with
+        | none =>
+          have := sp2 hsp p hnp.1
+          have := hnp.2.1
+          omega
+        | some p' =>
+          have := (sp1 p' hsp).unique hnp
+          subst this
+          simp only
+          have hcut : scanCut r (instr - base) p' = false := by
+            cases hc : scanCut r (instr - base) p' with
+            | false => rfl
+            | true =>
+              exfalso
+              unfold scanCut at hc
+              obtain ⟨f, hfm, hf⟩ := List.any_eq_true.mp hc
+              simp only [decide_eq_true_eq] at hf
+              obtain ⟨f1, f2, f3, f4⟩ := hf
+              obtain ⟨e, he, hlo⟩ := ftab_has_record hno hfm f1 f2
+              rw [← B.funcs, ← B.ftab] at he
+              have := hrule e he (by omega)
+              omega
+          rw [hcut]
+          simp
+      · rcases hwhy with hnone | ⟨p, hnp, e, he, hle, hcutoff⟩
+        · cases hsp : scanPublic r.pubs (instr - base) with
+          | none => rfl
+          | some p' =>
+            have h1 := (sp1 p' hsp)
+            have := hnone p' h1.1
+            have := h1.2.1
+            omega
+        · cases hsp : scanPublic r.pubs (instr - base) with
+          | none =>
+            have := sp2 hsp p hnp.1
+            have := hnp.2.1
+            omega
+          | some p' =>
+            have := (sp1 p' hsp).unique hnp
+            subst this
+            simp only
+            have hcut : scanCut r (instr - base) p' = true := by
+              unfold scanCut
+              obtain ⟨f, hfm, hfa', hf1, hf2, _⟩ := ftab_entry_is_record hb he
+              apply List.any_eq_true.mpr
+              refine ⟨f, hfm, ?_⟩
+              simp only [decide_eq_true_eq]
+              exact ⟨hf1, hf2, by omega, by omega⟩
+            rw [hcut]
+            simp
 
 end MdModel.Symbolize
